@@ -98,7 +98,7 @@ def run(ck):
         h = ce.run_history(rng, rng.choice(lens), 'wild')
         h['style'] = 'wild'
         hs.append(h)
-    for ops in ce.instance_scenarios(rng, ck.scale(6, 60)):
+    for ops in ce.chain_scenarios(rng, ck.scale(12, 200)) + ce.instance_scenarios(rng, ck.scale(6, 60)):
         h = ce.run_history(rng, 0, 'valid', fixed_ops=ops)
         h['style'] = 'instance'
         hs.append(h)
